@@ -375,7 +375,7 @@ def run(tier, seed, replay=None):
     if replay:
         hs = [json.load(open(replay))["history"]]; ncorpus = 0
     else:
-        n = 260 if tier == "quick" else 4200
+        n = 800 if tier == "quick" else 11000
         for i in range(n):
             hs.append(gen_history(rng, edge=(i % 4 == 3)))
     all_steps, abstraction_errors = [], []
